@@ -133,6 +133,60 @@ def one_case(cid, rng, scheme, s, genic, cov, thorough):
     return c
 
 
+def dihybrid_case(cid, rng, s, genic):
+    """DH progeny of a cross between two NON-inbred individuals: the four parental haplotypes play the roles of the four
+    inbred grandparents of the four-way scheme after its first hybridisation, so the four-way tables apply with the
+    haplotypes as origins: entry [i, j] <-> four-way tuple [j.0, j.1, i.0, i.1]"""
+    import importlib
+    from pybrops.popgen.gmat.DensePhasedGenotypeMatrix import DensePhasedGenotypeMatrix
+    from pybrops.model.gmod.DenseAdditiveLinearGenomicModel import DenseAdditiveLinearGenomicModel
+    from pybrops.popgen.gmap.HaldaneMapFunction import HaldaneMapFunction
+    mem = [1, 2, None, 1024][cid % 4]
+    chroms = layout(rng, multi=mem in (1, 2))
+    L = sum(len(c) for c in chroms)
+    n = rng.randrange(2, 4); T = rng.randrange(1, 3)
+    H = np.array([[rng.randrange(2) for _ in range(L)] for _ in range(2 * n)], dtype="int8")      # haplotype rows 2i, 2i+1
+    if rng.random() < 0.3:
+        H[1] = H[0]                                  # a homozygous individual among heterozygous ones
+    ph = np.stack([H[0::2], H[1::2]])
+    u = np.array([[rng.choice([-2, -1, 0, 1, 2]) for _ in range(T)] for _ in range(L)], dtype=float)
+    chrgrp = np.array([k + 1 for k, ch in enumerate(chroms) for _ in ch], dtype="int64")
+    genpos = np.array([x for ch in chroms for x in ch], dtype=float)
+    pg = DensePhasedGenotypeMatrix(ph, taxa=np.array(["h%d" % i for i in range(n)], dtype=object), taxa_grp=np.arange(n, dtype="int64"),
+                                   vrnt_chrgrp=chrgrp, vrnt_phypos=np.arange(1, L + 1, dtype="int64"), vrnt_genpos=genpos, vrnt_xoprob=np.full(L, 0.1))
+    pg.group_vrnt()
+    gm = DenseAdditiveLinearGenomicModel(beta=np.zeros((1, T)), u_misc=None, u_a=u, trait=np.array(["t%d" % t for t in range(T)], dtype=object))
+    name = "DenseDihybridDHAdditive%sVarianceMatrix" % ("Genic" if genic else "Genetic")
+    cls = getattr(importlib.import_module("pybrops.model.vmat." + name), name)
+    c = {"id": cid, "scheme": "4w", "K": 4, "D": D, "s": s, "genic": genic, "A": H.astype(int).tolist(), "u": u.astype(int).tolist(),
+         "rhoM": rho_matrix(chroms), "err": None, "cls": name, "mem": repr(mem), "cov": False}
+    try:
+        with time_limit(120), np.errstate(all="ignore"):
+            if genic:
+                obj = cls.from_algmod(gm, pg, 10, mem if mem else 1000)
+            else:
+                obj = cls.from_algmod(gm, pg, 1, 10, s, HaldaneMapFunction(), mem)
+            M = np.asarray(obj.mat, dtype=float)
+            ok = True; ents = []
+            for i in range(n):
+                for j in range(n):
+                    for t in range(T):
+                        x = M[i, j, t]
+                        if not np.isfinite(x):
+                            ok = False; f = Fraction(0)
+                        else:
+                            f = Fraction(float(x)).limit_denominator(LIM)
+                            if abs(float(f) - x) > 1e-9 * max(1.0, abs(x)):
+                                ok = False
+                        ents.append([[2 * j, 2 * j + 1, 2 * i, 2 * i + 1], t + 1, t + 1, f.numerator, f.denominator])
+            c["entries"] = ents; c["lat"] = ok
+            c["labels"] = list(obj.taxa) == list(pg.taxa)
+    except Exception as e:
+        c["err"] = "%s: %s" % (type(e).__name__, str(e)[:200])
+    c.setdefault("entries", []); c.setdefault("lat", False); c.setdefault("labels", True)
+    return c
+
+
 def uc_case(cid, rng, s):
     """usefulness criterion = parental mean + intensity * sqrt(progeny variance): the implied variance is validated"""
     import importlib
@@ -238,6 +292,10 @@ def run(ctx):
         for s in (0, 1, 2):
             for _ in range(3 if thorough else 1):
                 allc.append(uc_case(len(allc) + 1, rng, s))
+        for s, genic in ((0, False), (1, False), (0, True), (1, False)):
+            if ("4w", s) in have:
+                for _ in range(2 if thorough else 1):
+                    allc.append(dihybrid_case(len(allc) + 1, rng, s, genic))
         verd = cases.validate(ctx, "ProgenyVar_Trace", "ProgenyVar_Trace.cfg",
                               [{k: v for k, v in c.items() if k not in ("cls", "mem", "cov", "labels")} for c in allc],
                               "ProgenyVar_Trace", chunk=3, procs=14, env={"TABLE_FILE": tf}, timeout=3000)
